@@ -79,12 +79,12 @@ class TLCResult:
 
 
 def run(spec, cfg, workers=16, timeout=600, env=None, simulate=None, depth=None,
-        seed=None, coverage=False, extra=None, heap="4g", deque=False, keep=False):
+        seed=None, coverage=False, extra=None, heap="4g", deque=False, keep=False, stack="64m"):
     """spec: module name (in /verif/spec); cfg: config file name (in /verif/spec)."""
     WORK.mkdir(exist_ok=True)
     meta = tempfile.mkdtemp(prefix="m_", dir=str(WORK))
     cmd = ["timeout", "-k", "5", str(int(timeout)), "java", "-XX:+UseParallelGC",
-           "-Xmx" + heap, "-Xss16m"]
+           "-Xmx" + heap, "-Xss" + stack]
     if deque:
         cmd.append("-Dtlc2.tool.queue.IStateQueue=StateDeque")
     cmd += ["-cp", JAR, "tlc2.TLC", "-workers", str(workers), "-metadir", meta,
